@@ -17,6 +17,9 @@ def quotient_of(t, total, n):
     Returns 'int' when the value is coerced to int, 'raw' when it is integral only if total is, None when it is not the quotient."""
     coerced = int_wrapped(t)
     u = strip_int(t)
+    if u[0] == 'bin' and u[1] in ('FloorDiv', 'Mod') and int_wrapped(u[2]) and strip_int(u[2]) == total and strip_int(u[3]) == n:
+        # int(total) // int(n): an integer whatever the type of the total handed in
+        u, coerced = ('bin', u[1], total, n), True
     if u == BIN('Div', total, n):
         return 'int' if coerced else None        # a true division without int() is a float
     if u == BIN('FloorDiv', total, n):
@@ -29,6 +32,8 @@ def quotient_of(t, total, n):
 def remainder_of(t, total, n):
     coerced = int_wrapped(t)
     u = strip_int(t)
+    if u[0] == 'bin' and u[1] == 'Mod' and int_wrapped(u[2]) and strip_int(u[2]) == total and strip_int(u[3]) == n:
+        u, coerced = ('bin', 'Mod', total, n), True
     if u == BIN('Mod', total, n) or u == I(CALL(S('divmod'), [total, n]), C(1)):
         return 'int' if coerced else 'raw'
     # total - n * quotient
